@@ -26,7 +26,7 @@
 //	admitted-stale-epoch, started-after-expiry                        admission
 //	status-after-end, status-backwards, status-skips-started,
 //	expired-after-start, expired-too-early, timeout-too-early         status matrix
-//	left-running-non-end, end-status-not-remembered, refused-not-ended
+//	left-running-non-end, left-waiting-non-end, end-status-not-remembered, refused-not-ended
 //	command-misaddressed, command-without-operator,
 //	command-not-current-step, command-missing, command-unexpected,
 //	command-refused                                                    commands
@@ -68,6 +68,7 @@ import (
 )
 
 const (
+	handCap     = 2 // builds the scheduler may hold before it submits them (a merge pair is one build)
 	nStores     = 5
 	allocBase   = 1000 // ids handed out by the allocator stay away from store / region / peer ids
 	foreignBase = 9000 // peer ids of foreign peers
@@ -84,6 +85,18 @@ func infra(f string, a ...interface{}) {
 
 func stepType(s operator.OpStep) string {
 	return strings.TrimPrefix(fmt.Sprintf("%T", s), "operator.")
+}
+
+// stepKey: the step kind as it appears in violation keys; a ChangePeerV2 step with
+// one change (applied by the store as a simple change) is a class of its own.
+func stepKey(s operator.OpStep) string {
+	if promote, demote, _, ok := v2lists(s); ok {
+		if len(promote)+len(demote) == 1 {
+			return stepType(s) + "/single-change"
+		}
+		return stepType(s) + "/joint"
+	}
+	return stepType(s)
 }
 
 type pd struct{ store, id uint64 }
@@ -331,6 +344,7 @@ type tmpl struct {
 	name   string
 	region int // index of the (first) region the operators are for
 	build  func(m *model) ([]*operator.Operator, error)
+	can    func(m *model) bool // optional: the event is only enabled when it holds
 }
 
 type foreignDef struct {
@@ -365,7 +379,8 @@ type opDef struct {
 
 type scopeCfg struct {
 	name     string
-	joint    bool // joint consensus switched on
+	mode     int // joint consensus mode
+	nRun     int // runs scopes: the first nRun templates are run(k,j) templates, the others are only added later
 	regions  int
 	tmpls    []tmpl
 	foreign  []foreignDef
@@ -411,27 +426,35 @@ type model struct {
 	oc   *schedule.OperatorController
 	stop context.CancelFunc
 
-	sims    []*regionsim.Region
-	views   []*regionsim.Region // the region as of the last heartbeat (PD's view)
-	mail    [][]*pdpb.RegionHeartbeatResponse
-	recs    []*opRec
-	hand    []int
-	now     time.Duration
-	foreign bool // some foreign event happened
-	nEvents int
+	sims       []*regionsim.Region
+	views      []*regionsim.Region // the region as of the last heartbeat (PD's view)
+	mail       [][]*pdpb.RegionHeartbeatResponse
+	recs       []*opRec
+	hand       []int
+	handBuilds int
+	now        time.Duration
+	foreign    bool // some foreign event happened
+	nEvents    int
 	// per event
 	dispatched map[int]bool // regions whose heartbeat was dispatched in this event
 	isPush     bool
 	runLen     []int // steps of template k (runs scopes)
 }
 
-func newCluster(joint bool) *mockcluster.Cluster {
+// joint consensus modes of a scope
+const (
+	modeJoint    = 0 // joint consensus used
+	modeJointOff = 1 // supported but switched off: direct demotion (DemoteFollower) allowed
+	modeNoJoint  = 2 // not supported by the cluster version
+)
+
+func newCluster(mode int) *mockcluster.Cluster {
 	opts := config.NewTestOptions()
 	cl := mockcluster.NewCluster(context.Background(), opts)
 	sc := cl.GetScheduleConfig().Clone()
-	sc.EnableJointConsensus = joint
+	sc.EnableJointConsensus = mode == modeJoint
 	cl.SetScheduleConfig(sc)
-	if !joint {
+	if mode == modeNoJoint {
 		cl.DisableFeature(versioninfo.JointConsensus)
 	}
 	far := time.Now().Add(100000 * time.Hour)
@@ -442,11 +465,11 @@ func newCluster(joint bool) *mockcluster.Cluster {
 }
 
 func newModel(cfg *scopeCfg) *model {
-	m := &model{cfg: cfg, cl: newCluster(cfg.joint)}
+	m := &model{cfg: cfg, cl: newCluster(cfg.mode)}
 	m.hbs = hbstream.NewTestHeartbeatStreams(context.Background(), m.cl.ID, m.cl, false)
 	if cfg.runs {
 		m.Reset()
-		for k := range cfg.tmpls {
+		for k := 0; k < cfg.nRun; k++ {
 			m.Reset()
 			ops, err := cfg.tmpls[k].build(m)
 			if err != nil {
@@ -459,8 +482,14 @@ func newModel(cfg *scopeCfg) *model {
 			}
 		}
 	}
+	// events that change the initial state come first: the engine shards the search
+	// over the worker processes by the index of the first event
+	var rest []opDef
 	if cfg.runs {
-		m.ops = append(m.ops, opDef{kind: oAdd, k: -1}) // another operator of the run's template
+		rest = append(rest, opDef{kind: oAdd, k: -1}) // another operator of the run's template
+		for k := cfg.nRun; k < len(cfg.tmpls); k++ {
+			rest = append(rest, opDef{kind: oAdd, k: k})
+		}
 	}
 	for k := range cfg.tmpls {
 		if cfg.adds {
@@ -470,25 +499,34 @@ func newModel(cfg *scopeCfg) *model {
 			m.ops = append(m.ops, opDef{kind: oBuild, k: k})
 		}
 	}
-	if cfg.hand {
-		m.ops = append(m.ops, opDef{kind: oAddHand}, opDef{kind: oAddWaitHand}, opDef{kind: oAddWaitHand, hi: true})
-	}
-	for r := 0; r < cfg.regions; r++ {
-		m.ops = append(m.ops, opDef{kind: oRemove, r: r}, opDef{kind: oHB, r: r}, opDef{kind: oExec, r: r}, opDef{kind: oCatchup, r: r})
-		if cfg.hand {
-			m.ops = append(m.ops, opDef{kind: oHB, r: r, hi: true})
+	for f := range cfg.foreign {
+		if cfg.runs {
+			rest = append(rest, opDef{kind: oForeign, k: f})
+		} else {
+			m.ops = append(m.ops, opDef{kind: oForeign, k: f})
 		}
 	}
-	m.ops = append(m.ops, opDef{kind: oPush})
-	if cfg.hand {
-		m.ops = append(m.ops, opDef{kind: oPush, hi: true})
-	}
-	for f := range cfg.foreign {
-		m.ops = append(m.ops, opDef{kind: oForeign, k: f})
-	}
 	for _, d := range cfg.times {
-		m.ops = append(m.ops, opDef{kind: oTime, d: d})
+		if cfg.runs {
+			rest = append(rest, opDef{kind: oTime, d: d})
+		} else {
+			m.ops = append(m.ops, opDef{kind: oTime, d: d})
+		}
 	}
+	if cfg.hand {
+		rest = append(rest, opDef{kind: oAddHand}, opDef{kind: oAddWaitHand}, opDef{kind: oAddWaitHand, hi: true})
+	}
+	for r := 0; r < cfg.regions; r++ {
+		rest = append(rest, opDef{kind: oRemove, r: r}, opDef{kind: oHB, r: r}, opDef{kind: oExec, r: r}, opDef{kind: oCatchup, r: r})
+		if cfg.hand {
+			rest = append(rest, opDef{kind: oHB, r: r, hi: true})
+		}
+	}
+	rest = append(rest, opDef{kind: oPush})
+	if cfg.hand {
+		rest = append(rest, opDef{kind: oPush, hi: true})
+	}
+	m.ops = append(m.ops, rest...)
 	m.Reset()
 	return m
 }
@@ -519,22 +557,13 @@ func (m *model) Reset() {
 		m.mail = append(m.mail, nil)
 		m.cl.PutRegion(r.Info())
 	}
-	m.recs, m.hand = nil, nil
+	m.recs, m.hand, m.handBuilds = nil, nil, 0
 	m.now, m.foreign, m.nEvents = 0, false, 0
 }
 
-// The first "operation" of a history is a pair of events (index nBase + a*nBase + b):
-// the engine shards the search over worker processes by the first operation, and
-// pairs give it enough first operations of similar weight.
-func (m *model) NumOps() int { return len(m.ops) + len(m.ops)*len(m.ops) }
-
-func (m *model) pair(i int) (a, b int) { i -= len(m.ops); return i / len(m.ops), i % len(m.ops) }
+func (m *model) NumOps() int { return len(m.ops) }
 
 func (m *model) OpName(i int) string {
-	if i >= len(m.ops) {
-		a, b := m.pair(i)
-		return m.OpName(a) + " ; " + m.OpName(b)
-	}
 	o := m.ops[i]
 	hi := ""
 	if o.hi {
@@ -574,17 +603,47 @@ func (m *model) OpName(i int) string {
 
 // Possible prunes from the history alone.
 func (m *model) Possible(h []int, op int) bool {
-	if (len(h) == 0) != (op >= len(m.ops)) {
+	o := m.ops[op]
+	if m.cfg.runs && (len(h) == 0) != (o.kind == oRun) {
 		return false
 	}
-	if op >= len(m.ops) {
-		a, b := m.pair(op)
-		if m.cfg.runs {
-			return m.ops[a].kind == oRun && m.ops[b].kind != oRun
+	// cheap necessary conditions read off the history (Enabled decides exactly)
+	submitted, built, handBuilds, waited, execd, foreign := false, 0, 0, false, false, false
+	for _, i := range h {
+		switch k := m.ops[i].kind; k {
+		case oAdd, oRun:
+			submitted = true
+			built++
+		case oBuild:
+			built++
+			handBuilds++
+		case oAddHand, oAddWaitHand:
+			submitted = true
+			handBuilds = 0
+			waited = waited || k == oAddWaitHand
+		case oExec:
+			execd = true
+		case oForeign:
+			foreign = true
 		}
-		return true
 	}
-	return !m.cfg.runs || m.ops[op].kind != oRun
+	switch o.kind {
+	case oAdd:
+		return built < m.cfg.maxBuilt
+	case oBuild:
+		return built < m.cfg.maxBuilt && handBuilds < handCap
+	case oAddHand:
+		return handBuilds > 0
+	case oAddWaitHand:
+		return handBuilds > 0 && (!o.hi || built >= 2)
+	case oRemove, oExec:
+		return submitted
+	case oCatchup:
+		return execd || foreign
+	case oHB, oPush:
+		return !o.hi || (waited && built >= 2)
+	}
+	return true
 }
 
 func (m *model) waitingPriorities() int {
@@ -596,16 +655,6 @@ func (m *model) waitingPriorities() int {
 }
 
 func (m *model) Enabled(i int) bool {
-	if i >= len(m.ops) {
-		a, b := m.pair(i)
-		if m.nEvents != 0 || !m.Enabled(a) {
-			return false
-		}
-		v := m.applyBase(a)
-		ok := v != nil || m.Enabled(b) // a violation of the first event is reported by Apply
-		m.Reset()
-		return ok
-	}
 	o := m.ops[i]
 	if m.cfg.runs && (m.nEvents == 0) != (o.kind == oRun) {
 		return false
@@ -615,12 +664,15 @@ func (m *model) Enabled(i int) bool {
 		if len(m.recs) >= m.cfg.maxBuilt {
 			return false
 		}
-		if o.kind == oBuild && len(m.hand) > 0 {
-			return false // one build in the hand at a time (a merge pair counts as one)
+		if o.kind == oBuild && m.handBuilds >= handCap {
+			return false
 		}
 		k := o.k
 		if k < 0 {
 			k = m.recs[0].tmpl
+		}
+		if c := m.cfg.tmpls[k].can; c != nil && !c(m) {
+			return false
 		}
 		return m.cl.GetRegion(regionIDs[m.cfg.tmpls[k].region]) != nil
 	case oAddHand:
@@ -665,8 +717,6 @@ func (m *model) Enabled(i int) bool {
 			return false
 		}
 		return r.Clone().ApplyCommand(cmd) == nil
-	case oTime:
-		return m.now < 30*time.Minute
 	}
 	return true
 }
@@ -682,13 +732,17 @@ func (m *model) notifierKey() string {
 		e := f.Index(i).Elem()
 		opp := e.FieldByName("op").Pointer()
 		t := *(*time.Time)(unsafe.Pointer(e.FieldByName("time").UnsafeAddr()))
-		idx := -1
+		var region uint64
 		for _, rc := range m.recs {
 			if uintptr(unsafe.Pointer(rc.op)) == opp {
-				idx = rc.idx
+				region = rc.region
 			}
 		}
-		fmt.Fprintf(&b, "%d@%d,", idx, int64(t.Sub(vclock.Epoch)/time.Millisecond))
+		due := t.Sub(vclock.Epoch) - m.now // the entry serves whatever operator runs on the region when it is due
+		if due < 0 {
+			due = 0
+		}
+		fmt.Fprintf(&b, "r%d+%d,", region, int64(due/time.Millisecond))
 	}
 	return b.String()
 }
@@ -733,7 +787,6 @@ func (m *model) recOf(op *operator.Operator) *opRec {
 
 func (m *model) Key() string {
 	var b strings.Builder
-	fmt.Fprintf(&b, "t=%d", int64(m.now/time.Millisecond))
 	for i, r := range m.sims {
 		fmt.Fprintf(&b, "|%s", r)
 		if m.cl.GetRegion(r.ID) == nil {
@@ -750,10 +803,27 @@ func (m *model) Key() string {
 			}
 		}
 	}
+	// times are kept as ages, saturated at the thresholds they are compared with
 	for _, rc := range m.recs {
-		fmt.Fprintf(&b, "|#%d:%s ep%d/%d %s c%d", rc.idx, m.cfg.tmpls[rc.tmpl].name, rc.ver, rc.cv, operator.OpStatusToString(rc.op.Status()), int64(rc.created/time.Millisecond))
-		if rc.hasStart {
-			fmt.Fprintf(&b, " s%d", int64(rc.started/time.Millisecond))
+		st := rc.op.Status()
+		if rc.loc == locGone {
+			fmt.Fprintf(&b, "|#%d:gone:%s", rc.idx, operator.OpStatusToString(st))
+			continue
+		}
+		fmt.Fprintf(&b, "|#%d:%s ep%d/%d %s", rc.idx, m.cfg.tmpls[rc.tmpl].name, rc.ver, rc.cv, operator.OpStatusToString(st))
+		switch st {
+		case operator.CREATED:
+			age := m.now - rc.created
+			if age > operator.OperatorExpireTime {
+				age = operator.OperatorExpireTime
+			}
+			fmt.Fprintf(&b, " age%d", int64(age/time.Millisecond))
+		case operator.STARTED:
+			age := m.now - rc.started
+			if age > rc.limit {
+				age = rc.limit
+			}
+			fmt.Fprintf(&b, " run%d", int64(age/time.Millisecond))
 		}
 		fmt.Fprintf(&b, " cur%d loc%d", rc.refCur, rc.loc)
 		if len(rc.steps) > 0 {
@@ -769,7 +839,7 @@ func (m *model) Key() string {
 			fmt.Fprintf(&b, "%d,", rc.idx)
 		}
 	}
-	fmt.Fprintf(&b, "|h:%v|q:%s|f:%v", m.hand, m.notifierKey(), m.foreign)
+	fmt.Fprintf(&b, "|h:%v/%d|q:%s", m.hand, m.handBuilds, m.notifierKey())
 	return b.String()
 }
 
@@ -966,6 +1036,7 @@ func (m *model) observe(pre *snapshot, what string) *hist.Violation {
 				endedNow[rc.ridx] = append(endedNow[rc.ridx], rc)
 			}
 		}
+		wasWaiting := rc.loc == locWaiting
 		switch {
 		case isRunning:
 			rc.loc = locRunning
@@ -977,8 +1048,8 @@ func (m *model) observe(pre *snapshot, what string) *hist.Violation {
 		case rc.loc != locHand || operator.IsEndStatus(st):
 			rc.loc = locGone
 		}
-		if rc.loc == locGone && !operator.IsEndStatus(st) {
-			return bad("refused-not-ended", "after %s: %s is neither running nor waiting but its status is %s", what, m.describe(rc), name)
+		if rc.loc == locGone && !operator.IsEndStatus(st) && wasWaiting {
+			return bad("left-waiting-non-end", "after %s: %s left the waiting queue, does not run and its status is %s", what, m.describe(rc), name)
 		}
 	}
 	// (3) end statuses are remembered
@@ -1013,14 +1084,32 @@ func (m *model) observe(pre *snapshot, what string) *hist.Violation {
 			return bad("end-status-not-remembered", "after %s: %s ended but GetOperatorStatus(%d) reports %s", what, m.describe(endedNow[i][0]), regionIDs[i], got)
 		}
 	}
-	// (4) commands
+	// (4) commands: exactly the command of the current step of every operator that
+	// was admitted in this event or whose region's heartbeat was dispatched
+	// (a push may or may not send, but only the current step's command)
+	expect := make([][]*pdpb.RegionHeartbeatResponse, m.cfg.regions)
+	owner := make([][]*opRec, m.cfg.regions)
 	for _, rc := range m.recs {
-		if rc.loc == locRunning && rc.op.Status() == operator.STARTED {
-			m.advance(rc)
+		st := rc.op.Status()
+		isRunning := running[rc.ridx] == rc && st == operator.STARTED
+		if !(admitted[rc] || isRunning) || m.cl.GetRegion(rc.region) == nil {
+			continue
+		}
+		m.advance(rc) // pd checks the steps against its view when it admits / dispatches
+		if rc.refCur >= len(rc.steps) || !(admitted[rc] || m.dispatched[rc.ridx] || m.isPush) {
+			continue
+		}
+		if c := regionsim.CommandFor(rc.steps[rc.refCur], m.viewInfo(rc.ridx)); c != nil {
+			expect[rc.ridx] = append(expect[rc.ridx], c)
+			owner[rc.ridx] = append(owner[rc.ridx], rc)
 		}
 	}
 	msgs := m.hbs.VerifDrain()
-	perRegion := make([][]*pdpb.RegionHeartbeatResponse, m.cfg.regions)
+	got := make([]int, m.cfg.regions)
+	used := make([][]bool, m.cfg.regions)
+	for i := range used {
+		used[i] = make([]bool, len(expect[i]))
+	}
 	for _, msg := range msgs {
 		ridx := m.ridxOf(msg.GetRegionId())
 		if ridx < 0 {
@@ -1032,32 +1121,34 @@ func (m *model) observe(pre *snapshot, what string) *hist.Violation {
 			msg.GetTargetPeer().GetId() != lp.ID || msg.GetTargetPeer().GetStoreId() != lp.Store || msg.GetHeader().GetClusterId() != m.cl.ID {
 			return bad("command-misaddressed", "after %s: command %s for region %d, whose current state is %s", what, cmdStr(msg), regionIDs[ridx], v)
 		}
-		rc := running[ridx]
-		if rc == nil || rc.op.Status() != operator.STARTED {
+		if len(expect[ridx]) == 0 {
+			if rc := running[ridx]; rc != nil && rc.op.Status() == operator.STARTED {
+				return bad("command-unexpected", "after %s: command %s was sent for region %d although nothing is to be sent for %s", what, cmdStr(msg), regionIDs[ridx], m.describe(rc))
+			}
 			return bad("command-without-operator", "after %s: command %s for region %d which has no started operator", what, cmdStr(msg), regionIDs[ridx])
 		}
-		var want *pdpb.RegionHeartbeatResponse
-		if rc.refCur < len(rc.steps) {
-			want = regionsim.CommandFor(rc.steps[rc.refCur], m.viewInfo(ridx))
+		match := -1
+		for j, c := range expect[ridx] {
+			if sameCommand(c, msg) && (match < 0 || (used[ridx][match] && !used[ridx][j])) {
+				match = j
+			}
 		}
-		if want == nil || !sameCommand(want, msg) {
-			return bad("command-not-current-step", "after %s: command %s was sent for %s; the current step asks for %s (region %s)", what, cmdStr(msg), m.describe(rc), cmdStr(want), v)
+		if match < 0 {
+			return bad("command-not-current-step", "after %s: command %s was sent for %s; the current step asks for %s (region %s)", what, cmdStr(msg), m.describe(owner[ridx][0]), cmdStr(expect[ridx][0]), v)
 		}
-		perRegion[ridx] = append(perRegion[ridx], msg)
+		if used[ridx][match] && !m.isPush {
+			return bad("command-unexpected", "after %s: command %s was sent more often than expected for region %d", what, cmdStr(msg), regionIDs[ridx])
+		}
+		used[ridx][match] = true
+		got[ridx]++
 		m.mail[ridx] = append(m.mail[ridx], msg)
 	}
 	if !m.isPush {
-		for i := 0; i < m.cfg.regions; i++ {
-			rc := running[i]
-			var want *pdpb.RegionHeartbeatResponse
-			if rc != nil && rc.op.Status() == operator.STARTED && (admitted[rc] || m.dispatched[i]) && rc.refCur < len(rc.steps) {
-				want = regionsim.CommandFor(rc.steps[rc.refCur], m.viewInfo(i))
-			}
-			switch {
-			case want != nil && len(perRegion[i]) == 0:
-				return bad("command-missing", "after %s: no command was sent for %s; its current step asks for %s (region %s)", what, m.describe(rc), cmdStr(want), m.views[i])
-			case want == nil && len(perRegion[i]) > 0, len(perRegion[i]) > 1:
-				return bad("command-unexpected", "after %s: %d command(s) were sent for region %d (first %s), expected %s", what, len(perRegion[i]), regionIDs[i], cmdStr(perRegion[i][0]), cmdStr(want))
+		for i := range expect {
+			for j, c := range expect[i] {
+				if !used[i][j] {
+					return bad("command-missing", "after %s: no command was sent for %s; its current step asks for %s (region %s)", what, m.describe(owner[i][j]), cmdStr(c), m.views[i])
+				}
 			}
 		}
 	}
@@ -1136,7 +1227,7 @@ func (m *model) doHB(ridx int, hi bool) *hist.Violation {
 			case adv > m.accounted(x, v):
 				expect, reason = "Canceled", "confver"
 			case !refPrecond(x.steps[x.refCur], v):
-				expect, reason = "Canceled", "precondition:"+stepType(x.steps[x.refCur])
+				expect, reason = "Canceled", "precondition:"+stepKey(x.steps[x.refCur])
 			default:
 				expect = "Started"
 			}
@@ -1161,7 +1252,7 @@ func (m *model) doHB(ridx int, hi bool) *hist.Violation {
 				key := "stale-not-cancelled:confver"
 				for i := 0; i <= x.refCur && i < len(x.steps); i++ {
 					if d := x.steps[i].ConfVerChanged(info); d != refDelta(x.steps[i], v, x.hasEnter) {
-						key += ":overcount:" + stepType(x.steps[i])
+						key += ":overcount:" + stepKey(x.steps[i])
 						ctx += fmt.Sprintf("; step %d (%s) reports ConfVerChanged=%d where %d of its changes are visible", i+1, x.steps[i], d, refDelta(x.steps[i], v, x.hasEnter))
 						break
 					}
@@ -1170,7 +1261,7 @@ func (m *model) doHB(ridx int, hi bool) *hist.Violation {
 			case expect == "Canceled" && got == "Started":
 				return bad("stale-not-cancelled:"+reason, "%s", ctx)
 			case expect == "Started" && got == "Canceled":
-				return bad("cancelled-not-stale:"+stepType(x.steps[x.refCur]), "%s (foreign events so far: %v)", ctx, m.foreign)
+				return bad("cancelled-not-stale:"+stepKey(x.steps[x.refCur]), "%s (foreign events so far: %v)", ctx, m.foreign)
 			case expect == "Success":
 				return bad("finished-not-success", "%s", ctx)
 			case expect == "Timeout":
@@ -1247,17 +1338,6 @@ func (m *model) doAdd(k int) *hist.Violation {
 }
 
 func (m *model) Apply(i int) *hist.Violation {
-	if i >= len(m.ops) {
-		a, b := m.pair(i)
-		if v := m.applyBase(a); v != nil {
-			return v
-		}
-		return m.applyBase(b)
-	}
-	return m.applyBase(i)
-}
-
-func (m *model) applyBase(i int) *hist.Violation {
 	o := m.ops[i]
 	m.nEvents++
 	m.isPush = false
@@ -1275,13 +1355,16 @@ func (m *model) applyBase(i int) *hist.Violation {
 		for _, rc := range recs {
 			m.hand = append(m.hand, rc.idx)
 		}
+		if len(recs) > 0 {
+			m.handBuilds++
+		}
 		return m.observe(m.snap(), m.OpName(i))
 	case oAddHand, oAddWaitHand:
 		var recs []*opRec
 		for _, h := range m.hand {
 			recs = append(recs, m.recs[h])
 		}
-		m.hand = nil
+		m.hand, m.handBuilds = nil, 0
 		return m.submit(recs, o.kind == oAddWaitHand, o.hi, m.OpName(i))
 	case oRemove:
 		pre := m.snap()
@@ -1541,12 +1624,22 @@ func plainTemplates() []tmpl {
 	}
 }
 
+func offTemplates() []tmpl {
+	return []tmpl{
+		tMovePeer("move-peer(3->4)", 0, 3, 4),                           // AddLearner, PromoteLearner, RemovePeer
+		tSetPeers("demote(3)", 0, false, 0, vp(1), vp(2), lp(3)),        // DemoteFollower
+		tSetPeers("demote(2,3)", 0, false, 0, vp(1), lp(2), lp(3)),      // DemoteFollower x2
+		tSetPeers("demote-leader(1)", 0, false, 0, lp(1), vp(2), vp(3)), // TransferLeader, DemoteFollower
+		tSetPeers("swap-roles(3,4)", 0, false, 0, vp(1), vp(2), lp(3), vp(4)),
+	}
+}
+
 func runForeign() []foreignDef {
 	return []foreignDef{fAddLearner(0, 5), fRemove(0, 5), fRemove(0, 2), fRemove(0, 3), fRemove(0, 4), fPromote(0, 4), fLeader(0, 1), fLeader(0, 2), fLeader(0, 3), fLeader(0, 4)}
 }
 
 func scopeAPI() *scopeCfg {
-	return &scopeCfg{name: "api-orders", joint: true, regions: 1, maxBuilt: 3, adds: true, hand: true, times: []time.Duration{sec4, min11},
+	return &scopeCfg{name: "api-orders", mode: modeJoint, regions: 1, maxBuilt: 3, adds: true, hand: true, times: []time.Duration{sec4, min11},
 		tmpls: []tmpl{
 			tLeader("leader->2", 0, 2, operator.OpLeader),
 			tLeader("admin-leader->3", 0, 3, operator.OpAdmin),
@@ -1557,7 +1650,7 @@ func scopeAPI() *scopeCfg {
 }
 
 func scopeMerge() *scopeCfg {
-	return &scopeCfg{name: "merge+2regions", joint: true, regions: 2, maxBuilt: 4, adds: true, hand: true, times: []time.Duration{sec4, min11},
+	return &scopeCfg{name: "merge+2regions", mode: modeJoint, regions: 2, maxBuilt: 4, adds: true, hand: true, times: []time.Duration{sec4, min11},
 		tmpls: []tmpl{
 			tMerge("merge(11->12)", 0, 1),
 			tLeader("leader(r12)->2", 1, 2, operator.OpLeader),
@@ -1566,29 +1659,47 @@ func scopeMerge() *scopeCfg {
 		foreign: []foreignDef{fAddLearner(0, 5), fAddLearner(1, 5)}}
 }
 
-func scopeRuns(name string, joint bool, tmpls []tmpl, times []time.Duration) *scopeCfg {
-	return &scopeCfg{name: name, joint: joint, regions: 1, maxBuilt: 2, runs: true, adds: false, hand: false, times: times, tmpls: tmpls, foreign: runForeign()}
+func scopeRuns(name string, mode int, tmpls []tmpl, times []time.Duration) *scopeCfg {
+	nRun := len(tmpls)
+	if mode == modeJoint {
+		// what the joint state checker does for a region left in the joint state
+		tmpls = append(tmpls, tmpl{name: "leave-joint", region: 0, can: func(m *model) bool { return m.views[0].InJoint() }, build: func(m *model) ([]*operator.Operator, error) {
+			v := m.viewInfo(0)
+			if !core.IsInJointState(v.GetPeers()...) {
+				return nil, fmt.Errorf("not in joint state")
+			}
+			return one(operator.CreateLeaveJointStateOperator("c09-leave-joint", m.cl, v))
+		}})
+	}
+	return &scopeCfg{name: name, mode: mode, nRun: nRun, regions: 1, maxBuilt: 2, runs: true, adds: false, hand: false, times: times, tmpls: tmpls, foreign: runForeign()}
 }
 
 func main() {
 	log.ReplaceGlobals(zap.NewNop(), &log.ZapProperties{})
 	mk := func(c func() *scopeCfg, tiers string, depth int, suffix string) *hist.Scope {
-		return &hist.Scope{Name: c().name + suffix, Tiers: tiers, Depth: depth - 1, // the first operation is a pair of events
+		return &hist.Scope{Name: c().name + suffix, Tiers: tiers, Depth: depth,
 			NewModel: func() hist.Model { return newModel(c()) }}
 	}
-	runsJ := func() *scopeCfg { return scopeRuns("runs/joint", true, jointTemplates(), []time.Duration{min11}) }
-	runsP := func() *scopeCfg { return scopeRuns("runs/no-joint", false, plainTemplates(), []time.Duration{min11}) }
+	runsJ := func() *scopeCfg { return scopeRuns("runs/joint", modeJoint, jointTemplates(), []time.Duration{min11}) }
+	runsO := func() *scopeCfg {
+		return scopeRuns("runs/joint-off", modeJointOff, offTemplates(), []time.Duration{min11})
+	}
+	runsP := func() *scopeCfg {
+		return scopeRuns("runs/no-joint", modeNoJoint, plainTemplates(), []time.Duration{min11})
+	}
 	hist.Main(&hist.Config{
 		Property: "C09",
 		Scopes: []*hist.Scope{
-			mk(scopeAPI, "quick", 6, ""),
+			mk(scopeAPI, "quick", 5, ""),
 			mk(scopeMerge, "quick", 5, ""),
 			mk(runsJ, "quick", 5, ""),
+			mk(runsO, "quick", 5, ""),
 			mk(runsP, "quick", 5, ""),
-			mk(scopeAPI, "thorough", 7, "@7"),
-			mk(scopeMerge, "thorough", 6, "@6"),
-			mk(runsJ, "thorough", 6, "@6"),
-			mk(runsP, "thorough", 6, "@6"),
+			mk(scopeMerge, "thorough", 7, "@7"),
+			mk(runsP, "thorough", 7, "@7"),
+			mk(runsO, "thorough", 7, "@7"),
+			mk(runsJ, "thorough", 7, "@7"),
+			mk(scopeAPI, "thorough", 7, "@7"), // the largest scope runs last and may use all the remaining time
 		},
 		Rule: "breadth-first over all event sequences of the alphabet up to the depth (add / build / add-hand / add-waiting-hand with both bucket draws / remove / heartbeat / push / store executes the queued commands / pending peers catch up / foreign conf changes and leader changes / +4s / +11min; in the runs scopes the first event admits one operator and lets a faithful store execute 0..all of its steps, every later event is free); states are deduplicated by the canonical form of store regions, PD's view, queued commands, every operator's template/epoch/status/times/step pointer/place, waiting list, remembered end statuses and the controller's push queue; after every event the reference oracle written from the statement is evaluated on the real controller",
 		Assumptions: []string{
